@@ -130,6 +130,7 @@ class World:
         class Memories(inventory.ResourceMemories):
             """The real container; only the killer's iteration is made observable (which memory it is inside of)."""
             def iter_all_daemon_memories(self_) -> Any:  # noqa: N805
+                w.emit('kpass')                                      # a pass of the killer starts listing the memories
                 for dm in super().iter_all_daemon_memories():       # RuntimeError of the real iteration passes through
                     uid = next((k for k, m in self_._items.items() if m.daemons_memory is dm), None)
                     w.emit('kenter', uid=uid)
@@ -263,7 +264,11 @@ class World:
 
         def stop_daemon(*, settings: Any, daemon: Any, reason: Any) -> Any:
             ser = w.stopper_ser.get(id(daemon.stopper))
-            w.emit('ksweep', ser=ser, reason=reason_names(reason))      # the killer picked this daemon from `memories`
+            inst_ = w.instances.get(ser) if ser is not None else None
+            mem_ = inst_['memory'] if inst_ else None
+            w.emit('ksweep', ser=ser, reason=reason_names(reason),       # the killer picked this daemon from `memories`
+                   snap=w._snap(mem_) if mem_ is not None else None,
+                   known=any(m.daemons_memory is mem_ for m in w.memories._items.values()))
 
             async def wrapped() -> None:
                 e = w.emit('kstop_begin', ser=ser, reason=reason_names(reason))
@@ -377,6 +382,10 @@ class World:
                                     await asyncio.sleep(dur)   # cleanup
                             how = 'cancelled'
                             raise
+                    elif temper == 'retry':
+                        await asyncio.sleep(dur)
+                        how = 'temporary-error'
+                        raise kopf.TemporaryError('scripted failure', delay=1)
                     elif temper == 'ignores':
                         while not w.release:
                             try:
